@@ -15,3 +15,11 @@ Definition check_j (c : jcase) : bool :=
   match c with
   | (t, d, fails, expected) => Bool.eqb (jvalid (pm_of fails) json_schema false t d) expected
   end.
+
+(* the model's environment document against the SDK's: (identifiables as values, falsy literals, hash of the JSON) *)
+From Coq Require Import ZArith.
+From Basyx Require Import model.CodecObs gen.Gen_JsonRules.
+Definition check_env (c : list value * list string * Z) : bool :=
+  match c with
+  | (objs, falsy, expected) => Z.eqb (hdoc 0%Z (env_doc json_tables (lt_of falsy) json_tops objs)) expected
+  end.
